@@ -27,7 +27,7 @@ type Packet struct {
 // Events (name "pc"): pc.readFrom.enter, pc.readFrom.return(i|timeout|closed) with i the 1-based
 // ordinal of the datagram read, pc.writeTo(i) with i the 1-based ordinal of the datagram written
 // (logged, and plan waits served, before delivery), pc.setReadDeadline(past|future|zero),
-// pc.setWriteDeadline(…), pc.close.
+// pc.setWriteDeadline(…), pc.close.enter (before the effect of Close), pc.close (after it).
 type PacketConn struct {
 	log    *Log
 	name   string
@@ -158,6 +158,7 @@ func (p *PacketConn) Write(b []byte) (int, error) {
 // Close implements net.PacketConn; pending and future reads fail with net.ErrClosed. The event
 // pc.close is logged after the effect. A second Close returns net.ErrClosed.
 func (p *PacketConn) Close() error {
+	p.point("close.enter") // interposition point BEFORE the effect: a plan can make Close slow
 	p.mu.Lock()
 	was := p.closed
 	p.closed = true
